@@ -27,13 +27,18 @@ package strategy
 //@ lit#0 ensures[C08] "hold-keeps-state" ret == 0 ==> last == old(last)
 
 //@ func DenormalizeActions
-//@ requires consumed(ac) == 0
+//@ requires consumed(ac) == 0 && (forall k :: 0 <= k && k < len(ac) ==> 0 - 1 <= ac[k] && ac[k] <= 1)
 //@ ensures[C07,C08] len(result) == len(ac)
 //@ ensures[C07,C08] forall k :: 0 <= k && k < len(result) ==> result[k] == dlast(ac, k + 1)
+//@ ensures[C07,C05] forall k :: 0 <= k && k < len(result) ==> 0 - 1 <= result[k] && result[k] <= 1
+//@ ensures[C07,C05] forall k :: 0 <= k && k < len(result) ==> ((forall j :: 0 <= j && j <= k ==> ac[j] == 0) ==> result[k] == 0)
 //@ ensures[C03] consumed(ac) == len(ac) && closed(result)
 //@ ensures[C04] forall k :: 0 <= k && k < len(result) ==> hor(result, k) <= hor(ac, k)
-//@ lit#0 invariant last == dlast(ac, calls)
+//@ lit#0 invariant last == dlast(ac, calls) && 0 - 1 <= last && last <= 1
+//@ lit#0 invariant (forall j :: 0 <= j && j < calls ==> ac[j] == 0) ==> last == 0
 //@ lit#0 yields dlast(ac, calls + 1)
+//@ lit#0 ensures[C07] "is-an-action" 0 - 1 <= ret && ret <= 1
+//@ lit#0 ensures[C07] "hold-until-first-signal" (forall j :: 0 <= j && j <= calls ==> ac[j] == 0) ==> ret == 0
 
 // the standing recommendation of a stream of actions is an action, and is Hold while only Holds have been seen
 //@ lemma dlast_range(a istream, k int)
@@ -108,3 +113,81 @@ package strategy
 //@ loop#0 invariant consumed(buyActions) == sent(result) && consumed(sellActions) == sent(result) && !closed(result)
 //@ loop#0 invariant forall k :: 0 <= k && k < sent(result) ==> result[k] == ((buyActions[k] == Buy && sellActions[k] != Sell) ? Buy : ((sellActions[k] == Sell && buyActions[k] != Buy) ? Sell : Hold))
 //@ loop#0 invariant forall k :: 0 <= k && k < sent(result) && k < len(snapshots) ==> hor(result, k) <= hor(snapshots, k)
+
+// ---- voting combinators over a symbolic number K >= 1 of wrapped strategies (array mode) -----------------------
+//@ func CountActions
+//@ attr streams = arrays
+//@ requires len(acs) >= 1
+//@ requires forall a, b :: 0 <= a && a < b && b < len(acs) ==> acs[a] != acs[b]
+//@ requires forall j :: 0 <= j && j < len(acs) ==> consumed(acs[j]) == consumed(acs[0])
+//@ ensures[C07] result3 == (forall j :: 0 <= j && j < len(acs) ==> old(consumed(acs[j])) < len(acs[j]))
+//@ ensures[C07] result3 ==> (forall j :: 0 <= j && j < len(acs) ==> consumed(acs[j]) == old(consumed(acs[j])) + 1)
+//@ ensures[C07] result3 ==> result0 == cntact(acs, old(consumed(acs[0])), Buy, len(acs)) && result2 == cntact(acs, old(consumed(acs[0])), Sell, len(acs)) && result0 + result1 + result2 == len(acs)
+//@ ensures[C07] result3 ==> result0 >= 0 && result1 >= 0 && result2 >= 0
+//@ loop#0 invariant buy == cntact(acs, old(consumed(acs[0])), Buy, idx0) && sell == cntact(acs, old(consumed(acs[0])), Sell, idx0) && buy + hold + sell == idx0 && buy >= 0 && hold >= 0 && sell >= 0
+//@ loop#0 invariant forall j :: 0 <= j && j < idx0 ==> consumed(acs[j]) == old(consumed(acs[j])) + 1 && old(consumed(acs[j])) < len(acs[j])
+//@ loop#0 invariant forall j :: idx0 <= j && j < len(acs) ==> consumed(acs[j]) == old(consumed(acs[j]))
+
+// all K sources agree on v at position t  <==>  the tally of v is K   (what "and" means)
+//@ lemma cnt_all(A chanslice, t int, v int, i int)
+//@ requires[C07] 0 <= i && i <= len(A)
+//@ ensures[C07] 0 <= cntact(A, t, v, i) && cntact(A, t, v, i) <= i
+//@ ensures[C07] (cntact(A, t, v, i) == i) == (forall j :: 0 <= j && j < i ==> A[j][t] == v)
+//@ ensures[C07] (cntact(A, t, v, i) == 0) == (forall j :: 0 <= j && j < i ==> A[j][t] != v)
+//@ induction i
+
+//@ func ActionSources
+//@ attr streams = arrays
+//@ requires consumed(snapshots) == 0
+//@ ensures[C07,C05] len(result) == len(strategies) && consumed(snapshots) == len(snapshots)
+//@ ensures[C07,C05] forall j :: 0 <= j && j < len(result) ==> len(result[j]) >= len(snapshots) && (len(snapshots) >= warmup(strategies[j]) ==> len(result[j]) == len(snapshots)) && consumed(result[j]) == 0 && closed(result[j])
+//@ ensures[C07,C05] forall j, k :: 0 <= j && j < len(result) && 0 <= k && k < len(result[j]) ==> 0 - 1 <= result[j][k] && result[j][k] <= 1
+//@ ensures[C07,C05] forall j, k :: 0 <= j && j < len(result) && 0 <= k && k < len(result[j]) && k < warmup(strategies[j]) ==> result[j][k] == 0
+//@ ensures[C04] forall j, k :: 0 <= j && j < len(result) && 0 <= k && k < len(result[j]) && k < len(snapshots) ==> hor(result[j], k) <= hor(snapshots, k)
+//@ ensures[C07] forall a, b :: 0 <= a && a < b && b < len(result) ==> result[a] != result[b]
+//@ loop#0 invariant len(sources) == len(strategies) && len(snapshotsSplice) == len(strategies) && consumed(snapshots) == len(snapshots)
+//@ loop#0 invariant forall j :: idx0 <= j && j < len(strategies) ==> consumed(snapshotsSplice[j]) == 0
+//@ loop#0 invariant forall j :: 0 <= j && j < idx0 ==> sources[j] < nextid && len(sources[j]) >= len(snapshots) && (len(snapshots) >= warmup(strategies[j]) ==> len(sources[j]) == len(snapshots)) && consumed(sources[j]) == 0 && closed(sources[j])
+//@ loop#0 invariant forall j, k :: 0 <= j && j < idx0 && 0 <= k && k < len(sources[j]) ==> 0 - 1 <= sources[j][k] && sources[j][k] <= 1
+//@ loop#0 invariant forall j, k :: 0 <= j && j < idx0 && 0 <= k && k < len(sources[j]) && k < warmup(strategies[j]) ==> sources[j][k] == 0
+//@ loop#0 invariant forall j, k :: 0 <= j && j < idx0 && 0 <= k && k < len(sources[j]) && k < len(snapshots) ==> hor(sources[j], k) <= hor(snapshots, k)
+//@ loop#0 invariant forall a, b :: 0 <= a && a < b && b < idx0 ==> sources[a] != sources[b]
+//@ loop#0 invariant forall j, m :: 0 <= j && j < idx0 && 0 <= m && m < len(strategies) ==> sources[j] != snapshotsSplice[m]
+
+// And: Sell/Buy only when every standing recommendation is Sell/Buy; Or: some say it and none says the opposite;
+// Majority: strict plurality over Sell / Buy / Hold tallies.
+//@ func AndStrategy.Compute
+//@ attr streams = arrays
+//@ requires len(a.Strategies) >= 1 && consumed(snapshots) == 0
+//@ ensures[C05,C07] len(result) >= len(snapshots) && ((forall j :: 0 <= j && j < len(a.Strategies) ==> len(snapshots) >= warmup(a.Strategies[j])) ==> len(result) == len(snapshots))
+//@ ensures[C05,C07] forall t :: 0 <= t && t < len(result) ==> 0 - 1 <= result[t] && result[t] <= 1
+//@ ensures[C07] "vote" forall t :: 0 <= t && t < len(result) ==> result[t] == (cntact(res(ActionSources), t, Sell, len(res(ActionSources))) == len(res(ActionSources)) ? Sell : (cntact(res(ActionSources), t, Buy, len(res(ActionSources))) == len(res(ActionSources)) ? Buy : Hold))
+//@ ensures[C03] consumed(snapshots) == len(snapshots) && closed(result)
+//@ ensures[C04] forall t :: 0 <= t && t < len(result) && t < len(snapshots) ==> hor(result, t) <= hor(snapshots, t)
+//@ loop#0 invariant !closed(result) && (forall j :: 0 <= j && j < len(sources) ==> consumed(sources[j]) == sent(result))
+//@ loop#0 invariant forall t :: 0 <= t && t < sent(result) ==> result[t] == (cntact(sources, t, Sell, len(sources)) == len(sources) ? Sell : (cntact(sources, t, Buy, len(sources)) == len(sources) ? Buy : Hold))
+//@ loop#0 invariant forall t :: 0 <= t && t < sent(result) && t < len(snapshots) ==> hor(result, t) <= hor(snapshots, t)
+
+//@ func OrStrategy.Compute
+//@ attr streams = arrays
+//@ requires len(a.Strategies) >= 1 && consumed(snapshots) == 0
+//@ ensures[C05,C07] len(result) >= len(snapshots) && ((forall j :: 0 <= j && j < len(a.Strategies) ==> len(snapshots) >= warmup(a.Strategies[j])) ==> len(result) == len(snapshots))
+//@ ensures[C05,C07] forall t :: 0 <= t && t < len(result) ==> 0 - 1 <= result[t] && result[t] <= 1
+//@ ensures[C07] "vote" forall t :: 0 <= t && t < len(result) ==> result[t] == ((cntact(res(ActionSources), t, Sell, len(res(ActionSources))) > 0 && cntact(res(ActionSources), t, Buy, len(res(ActionSources))) == 0) ? Sell : ((cntact(res(ActionSources), t, Buy, len(res(ActionSources))) > 0 && cntact(res(ActionSources), t, Sell, len(res(ActionSources))) == 0) ? Buy : Hold))
+//@ ensures[C03] consumed(snapshots) == len(snapshots) && closed(result)
+//@ ensures[C04] forall t :: 0 <= t && t < len(result) && t < len(snapshots) ==> hor(result, t) <= hor(snapshots, t)
+//@ loop#0 invariant !closed(result) && (forall j :: 0 <= j && j < len(sources) ==> consumed(sources[j]) == sent(result))
+//@ loop#0 invariant forall t :: 0 <= t && t < sent(result) ==> result[t] == ((cntact(sources, t, Sell, len(sources)) > 0 && cntact(sources, t, Buy, len(sources)) == 0) ? Sell : ((cntact(sources, t, Buy, len(sources)) > 0 && cntact(sources, t, Sell, len(sources)) == 0) ? Buy : Hold))
+//@ loop#0 invariant forall t :: 0 <= t && t < sent(result) && t < len(snapshots) ==> hor(result, t) <= hor(snapshots, t)
+
+//@ func MajorityStrategy.Compute
+//@ attr streams = arrays
+//@ requires len(a.Strategies) >= 1 && consumed(snapshots) == 0
+//@ ensures[C05,C07] len(result) >= len(snapshots) && ((forall j :: 0 <= j && j < len(a.Strategies) ==> len(snapshots) >= warmup(a.Strategies[j])) ==> len(result) == len(snapshots))
+//@ ensures[C05,C07] forall t :: 0 <= t && t < len(result) ==> 0 - 1 <= result[t] && result[t] <= 1
+//@ ensures[C07] "vote" forall t :: 0 <= t && t < len(result) ==> result[t] == ((cntact(res(ActionSources), t, Sell, len(res(ActionSources))) > cntact(res(ActionSources), t, Buy, len(res(ActionSources))) && cntact(res(ActionSources), t, Sell, len(res(ActionSources))) > (len(res(ActionSources)) - cntact(res(ActionSources), t, Buy, len(res(ActionSources))) - cntact(res(ActionSources), t, Sell, len(res(ActionSources))))) ? Sell : ((cntact(res(ActionSources), t, Buy, len(res(ActionSources))) > cntact(res(ActionSources), t, Sell, len(res(ActionSources))) && cntact(res(ActionSources), t, Buy, len(res(ActionSources))) > (len(res(ActionSources)) - cntact(res(ActionSources), t, Buy, len(res(ActionSources))) - cntact(res(ActionSources), t, Sell, len(res(ActionSources))))) ? Buy : Hold))
+//@ ensures[C03] consumed(snapshots) == len(snapshots) && closed(result)
+//@ ensures[C04] forall t :: 0 <= t && t < len(result) && t < len(snapshots) ==> hor(result, t) <= hor(snapshots, t)
+//@ loop#0 invariant !closed(result) && (forall j :: 0 <= j && j < len(sources) ==> consumed(sources[j]) == sent(result))
+//@ loop#0 invariant forall t :: 0 <= t && t < sent(result) ==> result[t] == ((cntact(sources, t, Sell, len(sources)) > cntact(sources, t, Buy, len(sources)) && cntact(sources, t, Sell, len(sources)) > (len(sources) - cntact(sources, t, Buy, len(sources)) - cntact(sources, t, Sell, len(sources)))) ? Sell : ((cntact(sources, t, Buy, len(sources)) > cntact(sources, t, Sell, len(sources)) && cntact(sources, t, Buy, len(sources)) > (len(sources) - cntact(sources, t, Buy, len(sources)) - cntact(sources, t, Sell, len(sources)))) ? Buy : Hold))
+//@ loop#0 invariant forall t :: 0 <= t && t < sent(result) && t < len(snapshots) ==> hor(result, t) <= hor(snapshots, t)
